@@ -23,13 +23,13 @@ func (f Descent) Append(buf []byte, bracket, first bool) []byte {
 	return buf
 }
 
-func (f Descent) locate(pp Expr, data any, rest Expr, max int) (locs []Expr) {
+func (f Descent) locate(pp Expr, data any, rest Expr, max int, root any) (locs []Expr) {
 	if len(rest) == 0 { // last one
 		loc := make(Expr, len(pp))
 		copy(loc, pp)
 		locs = append(locs, loc)
 	} else {
-		locs = locateContinueFrag(locs, pp, data, rest, max)
+		locs = locateContinueFrag(locs, pp, data, rest, max, root)
 	}
 	cp := append(pp, nil) // place holder
 	mx := max
@@ -43,7 +43,7 @@ func (f Descent) locate(pp Expr, data any, rest Expr, max int) (locs []Expr) {
 					break
 				}
 			}
-			locs = append(locs, f.locate(cp, v, rest, mx)...)
+			locs = append(locs, f.locate(cp, v, rest, mx, root)...)
 		}
 	case []any:
 		for i, v := range td {
@@ -54,7 +54,7 @@ func (f Descent) locate(pp Expr, data any, rest Expr, max int) (locs []Expr) {
 					break
 				}
 			}
-			locs = append(locs, f.locate(cp, v, rest, mx)...)
+			locs = append(locs, f.locate(cp, v, rest, mx, root)...)
 		}
 	case gen.Object:
 		for k, v := range td {
@@ -65,7 +65,7 @@ func (f Descent) locate(pp Expr, data any, rest Expr, max int) (locs []Expr) {
 					break
 				}
 			}
-			locs = append(locs, f.locate(cp, v, rest, mx)...)
+			locs = append(locs, f.locate(cp, v, rest, mx, root)...)
 		}
 	case gen.Array:
 		for i, v := range td {
@@ -76,7 +76,7 @@ func (f Descent) locate(pp Expr, data any, rest Expr, max int) (locs []Expr) {
 					break
 				}
 			}
-			locs = append(locs, f.locate(cp, v, rest, mx)...)
+			locs = append(locs, f.locate(cp, v, rest, mx, root)...)
 		}
 	case Keyed:
 		keys := td.Keys()
@@ -89,7 +89,7 @@ func (f Descent) locate(pp Expr, data any, rest Expr, max int) (locs []Expr) {
 					break
 				}
 			}
-			locs = append(locs, f.locate(cp, v, rest, mx)...)
+			locs = append(locs, f.locate(cp, v, rest, mx, root)...)
 		}
 	case Indexed:
 		size := td.Size()
@@ -102,7 +102,7 @@ func (f Descent) locate(pp Expr, data any, rest Expr, max int) (locs []Expr) {
 					break
 				}
 			}
-			locs = append(locs, f.locate(cp, v, rest, mx)...)
+			locs = append(locs, f.locate(cp, v, rest, mx, root)...)
 		}
 	case nil, bool, string, float64, float32, gen.Bool, gen.Float, gen.String,
 		int, uint, int8, int16, int32, int64, uint8, uint16, uint32, uint64, gen.Int:
@@ -126,7 +126,7 @@ func (f Descent) locate(pp Expr, data any, rest Expr, max int) (locs []Expr) {
 							break
 						}
 					}
-					locs = append(locs, f.locate(cp, rv.Interface(), rest, mx)...)
+					locs = append(locs, f.locate(cp, rv.Interface(), rest, mx, root)...)
 				}
 			}
 		case reflect.Slice, reflect.Array:
@@ -140,7 +140,7 @@ func (f Descent) locate(pp Expr, data any, rest Expr, max int) (locs []Expr) {
 							break
 						}
 					}
-					locs = append(locs, f.locate(cp, rv.Interface(), rest, mx)...)
+					locs = append(locs, f.locate(cp, rv.Interface(), rest, mx, root)...)
 				}
 			}
 		}
